@@ -15,6 +15,7 @@ def setup(J):
             add("g3", 1, 1, kind); add("g3", 2, 2, kind) if kind == "cmd" else None
             add("g7", 1, 2, kind)
             add("g8", 1, 1, kind)
+        add("g3", 1, 1, "cmd", extra="prepend", id="C10-g3-i1-m1-cmd-prepend"); add("g8d", 1, 1, "cmd")
         add("g5", 2, 2, "cmd"); add("g6", 1, 1, "cmd"); add("g6b", 2, 1, "cmd"); add("g14a", 1, 1, "cmd"); add("g14a", 2, 2, "func"); add("g8b", 2, 1, "cmd"); add("g14b", 1, 1, "cmd"); add("g14b", 1, 2, "func")
         for sep, k in ((",", 2), (" ", 3)):
             jobs.append(J.with_delay_fallback(J.wf("C10", "gjoin", k, 1, 2, "cmd", oracles=["nohang", "clean", "c10", "c18"], tier=tier, events_dep=False, extra=sep, id=f"C10-gjoin-k{k}-sep{ord(sep)}")))
